@@ -26,13 +26,13 @@ theorem and_two_pow_ne_zero (f i : Nat) : (f &&& 2 ^ i != 0) = decide (f / 2 ^ i
   rw [and_two_pow]
   have h : f / 2 ^ i % 2 = 0 ∨ f / 2 ^ i % 2 = 1 := by omega
   have hp : 2 ^ i ≠ 0 := Nat.ne_of_gt (Nat.two_pow_pos i)
-  rcases h with h | h <;> simp [h, hp]
+  rcases h with h | h <;> simp [h]
 
 theorem and_two_pow_eq_zero (f i : Nat) : (f &&& 2 ^ i == 0) = decide (f / 2 ^ i % 2 = 0) := by
   rw [and_two_pow]
   have h : f / 2 ^ i % 2 = 0 ∨ f / 2 ^ i % 2 = 1 := by omega
   have hp : 2 ^ i ≠ 0 := Nat.ne_of_gt (Nat.two_pow_pos i)
-  rcases h with h | h <;> simp [h, hp]
+  rcases h with h | h <;> simp [h]
 
 /-- OR of a value below `2^s` with a multiple of `2^s` is their sum -/
 theorem or_mul_two_pow (x y s : Nat) (h : x < 2 ^ s) : x ||| y * 2 ^ s = x + y * 2 ^ s := by
